@@ -1648,3 +1648,72 @@ func c02r14(rc *core.RC) {
 		rc.Unknown("decoder/UnmarshalText-callers", token.NoPos, "found %d functions that call UnmarshalText (confirmed: 4)", n)
 	}
 }
+
+// ---- C02.R15 a map key of string kind is decoded as its text ----
+
+// encoding/json stores the text of an object key into a map key of string kind as it is, whatever the named type:
+// json.Number keys are not parsed as numbers. compileMapKey answers the string kind with the plain string decoder.
+// The general constructor for the kind (compileString) returns the number decoder for json.Number, which refuses
+// every key that is not a number. Obligation: the branch of compileMapKey for reflect.String returns newStringDecoder
+// (a call of another constructor is followed one level: it must not be able to return a number decoder).
+func c02r15(rc *core.RC) {
+	p := rc.P
+	fd := p.Func("decoder", "compileMapKey")
+	if fd == nil || fd.Body == nil {
+		rc.Unknown("decoder.compileMapKey", token.NoPos, "function not found")
+		return
+	}
+	info := p.Info(fd)
+	rc.Touch("decoder.compileMapKey")
+	n := 0
+	ast.Inspect(fd.Body, func(m ast.Node) bool {
+		ifs, ok := m.(*ast.IfStmt)
+		if !ok {
+			return true
+		}
+		be, ok := core.Unparen(ifs.Cond).(*ast.BinaryExpr)
+		if !ok || be.Op != token.EQL {
+			return true
+		}
+		sel, ok := core.Unparen(be.Y).(*ast.SelectorExpr)
+		if !ok || sel.Sel.Name != "String" {
+			return true
+		}
+		for _, st := range ifs.Body.List {
+			ret, ok := st.(*ast.ReturnStmt)
+			if !ok || len(ret.Results) == 0 {
+				continue
+			}
+			c, ok := core.Unparen(ret.Results[0]).(*ast.CallExpr)
+			if !ok {
+				continue
+			}
+			n++
+			cn := core.CalleeName(info, c)
+			good := cn == "decoder.newStringDecoder"
+			why := cn
+			if !good {
+				if f := core.Callee(info, c); f != nil {
+					if d := p.DeclOf(f); d != nil && d.Body != nil {
+						number := false
+						ast.Inspect(d.Body, func(k ast.Node) bool {
+							if c2, ok := k.(*ast.CallExpr); ok && core.CalleeName(p.Info(d), c2) == "decoder.newNumberDecoder" {
+								number = true
+							}
+							return true
+						})
+						good = !number
+						if number {
+							why = cn + ", which can return the number decoder (for json.Number)"
+						}
+					}
+				}
+			}
+			rc.Check(good, "decoder.compileMapKey/string-kind-key-is-its-text", ret.Pos(), "a map key of string kind is decoded by %s: the key's text has to be stored as it is (encoding/json does not parse a json.Number key; `{\"abc\":1}` into map[json.Number]int is no error)", why)
+		}
+		return true
+	})
+	if n < 1 {
+		rc.Unknown("decoder.compileMapKey/string-kind-branch", fd.Pos(), "no branch for reflect.String that returns a decoder found")
+	}
+}
